@@ -1,17 +1,18 @@
 #!/bin/sh
+# (the health test imports only tooling, never bs4/soupsieve: a broken /repo must be reported by the checks, not by setup)
 # Build the overlay venv (python 3.12 + solvers + the repo's own deps via .pth). Idempotent, offline.
 set -e
 cd "$(dirname "$0")"
 V=.venv
-if [ -x $V/bin/python ] && $V/bin/python -c "import z3, cvc5, bs4, soupsieve, jsonschema" 2>/dev/null; then
+if [ -x $V/bin/python ] && $V/bin/python -c "import z3, cvc5, jsonschema, lxml, html5lib" 2>/dev/null && [ -f $V/lib/python3.12/site-packages/_deps.pth ]; then
   exit 0
 fi
 (
   flock 9
-  if [ -x $V/bin/python ] && $V/bin/python -c "import z3, cvc5, bs4, soupsieve, jsonschema" 2>/dev/null; then exit 0; fi
+  if [ -x $V/bin/python ] && $V/bin/python -c "import z3, cvc5, jsonschema, lxml, html5lib" 2>/dev/null && [ -f $V/lib/python3.12/site-packages/_deps.pth ]; then exit 0; fi
   rm -rf $V
   /venv/bin/python -m venv $V
   PIP_NO_INDEX=1 $V/bin/pip install -q --no-index --find-links /opt/veriftools/wheels z3-solver cvc5 jsonschema
   echo "import site; site.addsitedir('/venv/lib/python3.12/site-packages')" > $V/lib/python3.12/site-packages/_deps.pth
-  $V/bin/python -c "import z3, cvc5, bs4, soupsieve, jsonschema"
+  $V/bin/python -c "import z3, cvc5, jsonschema, lxml, html5lib"
 ) 9>.venv.lock
